@@ -30,21 +30,38 @@ FilesNeeded(c) == {"workflow.yaml"} \cup (IF c.depth >= 2 THEN {L2(c)} ELSE {}) 
                   \cup (IF c.shared THEN {"shared.yaml"} ELSE {})
 \* CLI exit codes (cmd/arcaflow/main.go)
 ExitCode(parseOK, runErr, flag) == IF ~parseOK THEN 1 ELSE IF runErr THEN 3 ELSE IF flag THEN 2 ELSE 0
-\* The command-line program (cmd/arcaflow): what it prints and the exit code it ends with.  fault = none: the run returns
-\* the producible output; missing-workflow / invalid-workflow: nothing is parsed; run-fails: the only step crashes and
-\* no output is producible.  The printed output id and data are those of direct execution.
-Faults == {"none", "missing-workflow", "invalid-workflow", "run-fails"}
+\* The command-line program (cmd/arcaflow): what it prints and the exit code it ends with.  The program goes through
+\* fixed phases - flags, configuration, context files, engine, parse, (namespaces), run, print - and a fault ends it at
+\* the phase it belongs to:
+\*   version              prints the version and ends (0) before anything is read - even a missing workflow goes unnoticed
+\*   missing-config / invalid-config    the configuration file cannot be read / does not satisfy the configuration schema (1)
+\*   missing-input        the input file named on the command line does not exist (1)
+\*   missing-workflow / invalid-workflow    nothing is parsed (1)
+\*   get-namespaces       the workflow is parsed, the object namespaces are printed, nothing runs (0)
+\*   invalid-input        the input does not satisfy the workflow's input schema: the run fails (3)
+\*   run-fails            the only step crashes and no output is producible (3)
+\*   none                 the run returns the producible output; the printed id and data are those of direct execution
+Faults == {"none", "missing-workflow", "invalid-workflow", "run-fails", "version", "missing-config", "invalid-config",
+           "missing-input", "invalid-input", "get-namespaces"}
+PreParseFaults == {"missing-config", "invalid-config", "missing-input", "missing-workflow", "invalid-workflow"}
+RunFaults == {"run-fails", "invalid-input"}
 CliCases == [fault : Faults, out : Outs, explicit : Explicit, dir : DirModes]
-CliExit(c) == ExitCode(c.fault \notin {"missing-workflow", "invalid-workflow"}, c.fault = "run-fails",
-                       IF c.explicit = "none" THEN c.out = "error" ELSE c.explicit = "flag_true")
+CliExit(c) == IF c.fault \in {"version", "get-namespaces"} THEN 0
+              ELSE ExitCode(c.fault \notin PreParseFaults, c.fault \in RunFaults,
+                            IF c.explicit = "none" THEN c.out = "error" ELSE c.explicit = "flag_true")
+\* what appears on the standard output
+CliStdout(c) == CASE c.fault = "none" -> "result" [] c.fault = "version" -> "version"
+                  [] c.fault = "get-namespaces" -> "namespaces" [] OTHER -> "nothing"
 CliPrints(c) == c.fault = "none"
+\* whether the workflow's step may be executed at all
+CliExecutes(c) == c.fault \in {"none", "run-fails"}
 VARIABLES todo, ctodo
 Init == todo = Configs /\ ctodo = CliCases
 Next == todo # {} /\ LET c == CHOOSE x \in todo : TRUE IN
           /\ PrintT(<<"CONFIG", ToJson([c |-> c, l2 |-> L2(c), l3 |-> L3(c), id |-> ExpectedId(c), flag |-> ErrorFlag(c), exit |-> ExitCode(TRUE, FALSE, ErrorFlag(c))])>>)
           /\ todo' = todo \ {c} /\ UNCHANGED ctodo
 NextCli == todo = {} /\ ctodo # {} /\ LET c == CHOOSE x \in ctodo : TRUE IN
-          /\ PrintT(<<"CLI", ToJson([c |-> c, exit |-> CliExit(c), prints |-> CliPrints(c), id |-> c.out])>>)
+          /\ PrintT(<<"CLI", ToJson([c |-> c, exit |-> CliExit(c), prints |-> CliPrints(c), stdout |-> CliStdout(c), executes |-> CliExecutes(c), id |-> c.out])>>)
           /\ ctodo' = ctodo \ {c} /\ UNCHANGED todo
 Spec == Init /\ [][Next \/ NextCli]_<<todo, ctodo>>
 \* the expectation does not depend on how the caller names the directory, where it stands, or on nesting
